@@ -267,5 +267,53 @@ verus! {
         (next_sections, Ghost(runs))
 //@end
 
+// =====================================================================================
+// C. the closure `insert_into_queue` (R10 lift), under the precondition that holds at its only call
+//    site (proved in D): the inserted value is non-empty and ends at or before the queue's first start.
+// =====================================================================================
+//@extract closure bigtools/src/utils/merge.rs next insert_into_queue
+//@header fn insert_into_queue(queue: &mut Vec<Value>, next_val: Value)
+//@rule R6
+//@sub /for \(idx, queued\) in queue\.iter_mut\(\)\.enumerate\(\) \{/ => let mut idx: usize = 0; while idx < queue.len() {
+//@sub /\bcontinue;/ => { idx = idx + 1; continue; } min=0
+//@sub /\bqueued\.(start|end)\b/ => queue[idx].\1 min=0
+//@sub /std::mem::replace\(\s*queued,/ => replace_at(queue, idx, min=0
+//@sig
+    requires
+        [[L: pre]]
+        queue_sorted(old(queue)@),
+        next_val.start < next_val.end,
+        old(queue)@.len() > 0 ==> next_val.end <= old(queue)@[0].start,
+    ensures
+        [[L: held_back_value_goes_in_front_nothing_merged]]
+        final(queue)@ == seq![next_val] + old(queue)@,
+//@open
+        let ghost q0 = queue@;
+//@loop 1
+                invariant
+                    [[L: insert/frame]]
+                    queue@ == q0, insert_val == next_val, queue_sorted(q0),
+                    next_val.start < next_val.end, q0.len() > 0 ==> next_val.end <= q0[0].start,
+                decreases
+                    [[L: insert/termination_one_round_at_this_call_site]]
+                    1int,
+//@at /let mut idx: usize = 0; while idx < queue\.len\(\) \{/ before
+                    proof {
+                        // queue is not empty and its last value ends after insert_val starts: the value cannot go at the back
+                        assert(q0.len() > 0);
+                        let _ = q0[0]; let _ = q0[q0.len() - 1];
+                    }
+//@loop 2
+                        invariant
+                            [[L: insert/only_the_first_queued_value_is_looked_at]]
+                            idx == 0, queue@ == q0, q0.len() > 0, insert_val == next_val,
+                            next_val.start < next_val.end, next_val.end <= q0[0].start, q0[0].start < q0[0].end,
+                        decreases
+                            [[L: insert/scan_termination]]
+                            queue.len() - idx,
+//@at /queue\.insert\(idx, insert_val\);/ after
+                            proof { assert(queue@ =~= seq![next_val] + q0); }
+//@end
+
 } // verus!
 fn main() {}
